@@ -119,7 +119,7 @@ def run(ctx):
                     jn = [c for c in o.call_nodes() if c.a["name"] == "join" and "slice" in c.a["callee"]][0]
                     sep = prim.expand_single_def_vars(mf, jn.kids[1]) if len(jn.kids) > 1 else None
                     sep_names = {c.a["name"] for c in sep.call_nodes()} if sep else set()
-                    pl = mf.locals_named("path_to_file")
+                    pl = C.find_local(mf, "path_to_file", ty="std::path::PathBuf")
                     from_path = sep is not None and (any(c.a["callee"].endswith("WalkEntry::path") for c in sep.call_nodes()) or (bool(pl) and any(x.k == "var" and x.a.get("local") == pl[0] for x in sep.walk())))
                     ok = not lossy and from_path and sep_names <= OS_IDENTITY
                     pieces = jn.kids[0]
@@ -152,7 +152,7 @@ def run(ctx):
         io_uses = _uses_of_arg(mf, 3)
         ctx.ob("R3", "matcher-io-untouched", not ios and not io_uses, "SingleExecMatcher::matches uses its MatcherIO (%s, %d other uses): a failing or missing command must not change find's exit status, quit or prune" % (ios, len(io_uses)), fn=mf, how="uses of the parameter")
         # ---- R4 execdir
-        pl = mf.locals_named("path_to_file")
+        pl = C.find_local(mf, "path_to_file", ty="std::path::PathBuf")
         if pl:
             c08._path_form(ctx, "R4", mf, pl[0], "SingleExecMatcher")
         else:
